@@ -12,3 +12,4 @@ from vt.contracts import amp_assembly  # noqa: F401,E402  (group level: density 
 from vt.contracts import dgroup  # noqa: F401,E402  (D(R1) D(R2) = D(R1 R2): representation + homomorphism lemma)
 from vt.contracts import amp_sym  # noqa: F401,E402  (cal_angle/mass_leaves_frame_independent)
 from vt.contracts import euler  # noqa: F401,E402  (helicity-frame Euler angles incl. the third angle of angle_zx_zx)
+from vt.contracts import dfun_sym  # noqa: F401,E402  (D unitarity, alignment-matrix selection by helicity value)
